@@ -459,6 +459,14 @@ func c04Readers(c *core.Ctx) {
 			}
 		}
 	}
+	c04LocalState(c, "R6")
+	_ = exits
+}
+
+// c04LocalState: the full-state exchange encodes the stored value itself, tombstones included (shared
+// with C06.R9: a removal whose gossip messages were lost can only be repaired by push/pull).
+func c04LocalState(c *core.Ctx, R string) {
+	ml := c.Prog.Pkg("kv/memberlist")
 	// R6: LocalState
 	if ls := an.FindFunc(ml, "KV.LocalState"); ls != nil {
 		c.Analysed(ls.String())
@@ -467,14 +475,13 @@ func c04Readers(c *core.Ctx) {
 			if call.Func() != nil && call.Func().Name() == "Encode" && len(call.Expr.Args) == 1 {
 				found = true
 				ac := ls.Canon(call.Expr.Args[0])
-				c.Check(ac == "each(recv.store).value", "R6", "func=(*KV).LocalState:encode", call.Expr.Pos(), "encoded value is "+ac+" (the stored value itself, tombstones included)", 1)
+				c.Check(ac == "each(recv.store).value", R, "func=(*KV).LocalState:encode", call.Expr.Pos(), "encoded value is "+ac+" (the stored value itself, tombstones included)", 1)
 			}
 		}
 		if !found {
-			c.Undec("R6", "func=(*KV).LocalState:encode", ls.Pos(), "no Encode call found")
+			c.Undec(R, "func=(*KV).LocalState:encode", ls.Pos(), "no Encode call found")
 		}
 	} else {
-		c.Miss("R6", "func=KV.LocalState", "not found")
+		c.Miss(R, "func=KV.LocalState", "not found")
 	}
-	_ = exits
 }
